@@ -110,7 +110,11 @@ def run_op(op):
                      lambda: HardDipolePotential(minimum_separation=fl(op, "mn"), maximum_separation=fl(op, "mx")))
         return [f2b(pot.displacement(vec(op, "vel"), vec(op, "sep")))]
     if fam == "cb":
-        pot = cached(("cb",), lambda: CellBoundingPotential(estimator=StubEstimator()))
+        def make_cb():
+            pot_ = CellBoundingPotential(estimator=StubEstimator())
+            pot_._free_public_methods()   # what Initializer.initialize() does; the bound tables are set per op
+            return pot_
+        pot = cached(("cb",), make_cb)
         d = op["dir"]
         up = [None, None, None]
         lo = [None, None, None]
